@@ -1,5 +1,6 @@
 import FastQr.Proofs.ReadBack
-import FastQr.Props.C04
+import FastQr.Finite.TablesFormatWord
+import FastQr.Proofs.Lift
 import FastQr.Proofs.ParseSound
 namespace FastQr.Proofs.FormatRead
 open FastQr Model Spec Finite Proofs Spec.Bitstream Proofs.ParseSound
@@ -7,6 +8,11 @@ open FastQr Model Spec Finite Proofs Spec.Bitstream Proofs.ParseSound
 theorem readWord_eq (g : Grid) (cells : List (Int × Int)) :
     Decode.readWord g cells = ofBits (cells.map fun p => g.dark (g.rel p.2) (g.rel p.1)) := by
   simp only [Decode.readWord, ofBits, List.foldl_map]
+
+/-- the crate's format word table = BCH(15,5) words (tier K) -/
+theorem format_table (l : ECL) {m : Nat} (hm : m < 8) : T.formatInfo l m = BCH.format15 l m := by
+  have h := all_range (all_ecl formatOk_true l) m hm
+  simpa using h
 
 def fmtFacts : Bool :=
   ECL.all.all fun l => (List.range 8).all fun m =>
@@ -22,7 +28,7 @@ theorem format_facts (l : ECL) {m : Nat} (hm : m < 8) :
 word of (level, mask), which identifies them -/
 theorem formatCopy1_final {v m : Nat} (hv : v < 40) (hm : m < 8) (l : ECL) (bytes : Array Nat) :
     Decode.formatCopy1 ⟨(finalMatrix v bytes l m).n, (finalMatrix v bytes l m).cells⟩ = T.formatInfo l m := by
-  have hlt : T.formatInfo l m < 2 ^ 15 := by rw [Props.C04.C04_format_table l hm]; exact (format_facts l hm).1
+  have hlt : T.formatInfo l m < 2 ^ 15 := by rw [format_table l hm]; exact (format_facts l hm).1
   rw [Decode.formatCopy1, readWord_eq, ← ofBits_toBits_lt hlt]
   congr 1
   apply List.ext_getElem
